@@ -4,6 +4,7 @@ import DSymVerif.Props.C16
 #print axioms DSymVerif.C16.reglue_accepts_iff
 #print axioms DSymVerif.C16.reglue_complete
 #print axioms DSymVerif.C16.reglue_empty
+#print axioms DSymVerif.C16.collapse_complete
 #print axioms DSymVerif.C16.collapse_complete_partial
 #print axioms DSymVerif.C16.cut_face_commutes
 #print axioms DSymVerif.C16.cut_tile_commutes
